@@ -427,3 +427,23 @@ where
         }
     }
 }
+
+/// Model of `Bytes::from(Vec<u8>)`: the buffer is leaked and viewed through the static vtable.
+/// The real conversion picks one of two vtables by the parity of the buffer address, which the model
+/// checker can only treat as a symbolic choice (and then every later `Bytes` operation is a merge of
+/// both); contents and length are the same.
+pub fn bytes_from_vec(v: Vec<u8>) -> bytes::Bytes {
+    bytes::Bytes::from_static(Box::leak(v.into_boxed_slice()))
+}
+
+/// Path pruning for the symbolic executor, checked by the solver: `c` is a fact computed where the
+/// executor could still fold it ("the collection marker's value is empty", taken before the bytes were
+/// moved into an `IppValue`); the arm this is called from contradicts it. The assertion makes the solver
+/// prove that the arm really is unreachable when `c` holds (a violation would be reported), and only then
+/// is the path dropped, so that an infeasible early return is not merged into the parser state.
+pub fn infeasible_if(c: bool) {
+    if c {
+        kani::assert(false, "arm reached although the collection marker value is empty");
+        kani::assume(false);
+    }
+}
